@@ -487,7 +487,7 @@ func Run(o *corr.Out) {
 			nPairs = 8
 		}
 		if o.Thorough {
-			nPairs = 150
+			nPairs = 70
 		}
 		fixed := [][][]string{{{"s1", "G"}, {"s2", "g"}}, {{"w", "E"}, {"s1", "s2"}}, {{"g", "s1"}, {"s2", "w"}}}
 		if isChan {
@@ -512,7 +512,7 @@ func Run(o *corr.Out) {
 		// (C) random walks: 2-3 goroutines x 1-3 operations, goroutines may block on the mutex
 		nWalk := 700
 		if o.Thorough {
-			nWalk = 10000
+			nWalk = 5000
 		}
 		for i := 0; i < nWalk; i++ {
 			ng := 2 + o.Rand.Intn(2)
